@@ -369,6 +369,9 @@ def step (_ : St) (w : List String) : St × Out :=
           match full with
           | none => some (unmodelled name)
           | some full =>
+            if fullText tree flags ≠ some full then
+              some { model := "FAULT fullText (the pure complete text) differs from the model's fault-free run" }
+            else
             let o := runLine name (mkTree tree) (fun _ => serialize tree flags)
               (fun _ r => match r with
                 | none => { res := "uncovered" }
